@@ -50,9 +50,9 @@ var c18E2 = []string{"a.type(@)", "(a | [@])", "a.not_null(@, 'd')", "[0].to_str
 
 // H_C18_types: every result consists of plain JSON values only.
 func H_C18_types() {
-	vrtSpec(2, 2, 1, "a,b", smASCII, nfInt|nfFrac, 0)
+	vrtSpec(tq(2, 3), 2, 1, "a,b", smASCII, nfInt|nfFrac, 0)
 	vrtNumRange(-2, 2)
-	vrtNested(1)
+	vrtNested(tq(1, 2))
 	k := vrtChoose("e1", len(c18E1))
 	expr := c18E1[k]
 	vrtNote("template:" + expr)
@@ -67,9 +67,9 @@ func H_C18_types() {
 
 // H_C18_compose: Search(e2, Search(e1, d)) == Search("e1 | e2", d).
 func H_C18_compose() {
-	vrtSpec(2, 2, 1, "a,b", smASCII, nfInt, 0)
+	vrtSpec(tq(2, 3), 2, 1, "a,b", smASCII, nfInt, 0)
 	vrtNumRange(0, 2)
-	vrtNested(1)
+	vrtNested(tq(1, 2))
 	e1 := c18E1[vrtChoose("e1", len(c18E1))]
 	e2 := c18E2[vrtChoose("e2", len(c18E2))]
 	vrtNote("template:" + e1 + " | " + e2)
